@@ -6,4 +6,4 @@ mkdir -p bin .cache evidence replay
 (cd govc && GOFLAGS=-mod=vendor go build -o ../bin/govc .) || exit 2
 echo "govc built: $(ls -la bin/govc)"
 # check the Lean/Mathlib lemmas once (first load of Mathlib is slow; later runs hit the content-hash stamp)
-bin/govc lean comb | tail -3
+GOFLAGS=-mod=mod bin/govc lean comb graph | tail -6
